@@ -1573,6 +1573,23 @@ func runC14(c *ev.Ctx) {
 			scns = append(scns, Scn{ID: id, WF: "Single", NumByte: nb, Stream: Stream{Kind: "const", Byte: b, Tail: "none"}, Chunk: mon.ChunkPlan{Kind: "whole"}, Note: fmt.Sprintf("single const 0x%02x numByte=%d", b, nb)})
 		}
 	}
+	// the small stuck-at scenarios once more with a 32-bit build of the harness (int is 32 bits wide)
+	var scns386 []Scn
+	if os.Getenv("VERIF_BIN_386") != "" {
+		for _, sc := range scns {
+			if (sc.WF == "Single" && sc.NumByte <= 70000 && (sc.NumByte%5 == 1 || sc.NumByte <= 48 || sc.NumByte >= 4090 || (sc.NumByte >= 2890 && sc.NumByte <= 2910))) || ((sc.WF == "Period" || sc.WF == "PeriodFast") && sc.Source == "" && sc.ID%16 == 0) {
+				id++
+				sc2 := sc
+				sc2.ID = id
+				sc2.Note = "GOARCH=386: " + sc.Note
+				scns386 = append(scns386, sc2)
+			}
+		}
+	}
+	ch386 := make(chan map[int]*Res, 1)
+	go func() {
+		ch386 <- runScenarios(scns386, runOpts{Parallel: 4, PerScn: 4 * time.Second, Label: "c14x", Arch386: true})
+	}()
 	hsch := make(chan map[int]*Res, 1)
 	go func() {
 		hsch <- runScenarios(heavySingles, runOpts{Parallel: 2, PerScn: 30 * time.Second, Label: "c14s"})
@@ -1588,7 +1605,11 @@ func runC14(c *ev.Ctx) {
 	for k, v := range <-hsch {
 		res[k] = v
 	}
-	all := append(append(append([]Scn{}, scns...), heavy...), heavySingles...)
+	for k, v := range <-ch386 {
+		res[k] = v
+	}
+	c.Count("scenarios_repeated_with_32_bit_build", int64(len(scns386)))
+	all := append(append(append(append([]Scn{}, scns...), heavy...), heavySingles...), scns386...)
 	for _, sc := range all {
 		r := res[sc.ID]
 		if r == nil {
